@@ -1,0 +1,17 @@
+//go:build verif
+
+package verifhooks
+
+import (
+	"context"
+	"time"
+
+	"github.com/atlassian/gostatsd/internal/util"
+)
+
+// VerifNewAlignedTicker starts an internal/util.AlignedTicker (clock taken from ctx, as the
+// flusher does) and returns its tick channel and its Stop function.
+func VerifNewAlignedTicker(ctx context.Context, interval, offset time.Duration) (<-chan time.Time, func()) {
+	at := util.NewAlignedTickerWithContext(ctx, interval, offset)
+	return at.C, at.Stop
+}
